@@ -23,7 +23,7 @@ class C04(Prop):
             "A C loop adds single-number trees (dense sweep). libFuzzer fz_parse checks the fixed point on parser-made trees. "
             "non-trivial = tree with a non-integer double, an escape-needing byte or depth >= 2; distinct by tree hash")
     ASSUMPTIONS = ["only the C locale exists in this sandbox (decimal point is always '.')"]
-    REQUIRED_CLASSES = ["container>10000_items", "long_string>=1000", "text_of_several_MB", "non_integer_double", "escape_needed", "depth>=2", "growth_exercised", "from_parser", "top_of_range_double",
+    REQUIRED_CLASSES = ["parsed_then_edited", "container>10000_items", "long_string>=1000", "text_of_several_MB", "non_integer_double", "escape_needed", "depth>=2", "growth_exercised", "from_parser", "top_of_range_double",
                         "invalid_utf8", "wide_shallow>limit", "print_history_reused_constant_keys"]
 
     def budget(self, tier):
@@ -172,6 +172,27 @@ class C04(Prop):
                         try:
                             ptexts = printing.print_all(lib, po.tree, stats, prebuf_subset=case["rseed"])
                             self.roundtrip(lib, po.tree, ptexts, stats, "parsed tree")
+                            # ... and edited through the API afterwards: what the parser knew about a node must not outlive an edit
+                            rr = random.Random(case["rseed"] + 7)
+                            nedits = [0]
+
+                            def mutate(p):
+                                t = lib.shim_type(p) & 0xFF
+                                if t == 16 and rr.random() < 0.6:
+                                    new = rr.choice([b'q"uote', b"back\\slash", b"\x01ctl", b"plain", b"", b"longer " * 8 + b'"', b"tab\there", b"\x7f\""])
+                                    if lib.cJSON_SetValuestring(p, new):
+                                        nedits[0] += 1
+                                elif t == 8 and rr.random() < 0.6:
+                                    lib.shim_set_number_value(p, rr.choice([0.5, -3.0, 1e300, 2147483648.0, 0.1 + 0.2, 7.0]))
+                                    nedits[0] += 1
+                                for k in lib.children(p):
+                                    mutate(k)
+                            if model.count_nodes(jv) < 300:
+                                mutate(po.tree)
+                            if nedits[0]:
+                                stats.cls("parsed_then_edited")
+                                etexts = printing.print_all(lib, po.tree, stats, prebuf_subset=case["rseed"] + 1)
+                                self.roundtrip(lib, po.tree, etexts, stats, "parsed tree edited through the API")
                         finally:
                             lib.cJSON_Delete(po.tree)
                 lib.cJSON_Delete(tree)
